@@ -228,11 +228,15 @@ def translate():
     # ---- TextXMetaModel.__contains__ / __getitem__
     ct = find_func(mtree, "__contains__", "TextXMetaModel")
     body = [x for x in ct.body if not (isinstance(x, ast.Expr) and isinstance(x.value, ast.Constant))]
-    need(len(body) == 1 and isinstance(body[0], ast.Try), "TextXMetaModel.__contains__ is no longer a single try statement")
-    t = body[0]
-    need([ast.unparse(x) for x in t.body] == ["self[name]", "return True"] and not t.orelse and not t.finalbody,
-         "TextXMetaModel.__contains__ changed")
-    contains_clauses = clauses_coq(t.handlers, swallow=["return False"])
+    if len(body) == 1 and isinstance(body[0], ast.Try):
+        t = body[0]
+        need([ast.unparse(x) for x in t.body] == ["self[name]", "return True"] and not t.orelse and not t.finalbody,
+             "TextXMetaModel.__contains__ changed")
+        contains_clauses = clauses_coq(t.handlers, swallow=["return False"])
+    else:
+        # no try statement at all: whatever the lookup raises leaves `rule_name in metamodel`
+        need(not any(isinstance(n, ast.Try) for n in ast.walk(ct)), "TextXMetaModel.__contains__: unrecognised try statement")
+        contains_clauses = "[]"
     gi = find_func(mtree, "__getitem__", "TextXMetaModel")
     src = ast.unparse(gi)
     for w in ["namespace, name = name.rsplit('.', 1)", "if namespace in self.referenced_languages:",
